@@ -185,13 +185,13 @@ def harness(subcmd, cases, timeout=1200, chunk=None):
         try:
             p = subprocess.run([os.path.join(HARNESS_DIR, subcmd)], input=inp, stdout=subprocess.PIPE, stderr=subprocess.PIPE,
                                text=True, timeout=timeout)
-            lines = [l for l in p.stdout.split("\n") if l.strip()]
+            lines = [l[2:] for l in p.stdout.split("\n") if l.startswith("@@")]
             rc = p.returncode
         except subprocess.TimeoutExpired as ex:
             so = ex.stdout or ""
             if isinstance(so, bytes):
                 so = so.decode("utf8", "replace")
-            lines = [l for l in so.split("\n") if l.strip()]
+            lines = [l[2:] for l in so.split("\n") if l.startswith("@@")]
             # a partial last line may be present; drop unparsable
             rc = "timeout"
         got = []
